@@ -133,10 +133,11 @@ func mtimeAtoms(p provSet) []string {
 }
 
 func checkC07(c *Ctx, r *Report) {
-	r.Rules = []string{"T1 single clock gate", "T1 gate fed from configured/entry mtime", "T1 entry mtime defaulting", "T1 host-name gate", "T1 no other nondeterminism source", "T2 order-insensitive map iteration", "T4 no non-constant compressor header field", "T5 no goroutine", "fixture (positive examples)", "T6-no-carried-state no package-level variable is written on a packaging path", "T7-template-zone changelog templates of nfpm's own use no local-zone date function", "fresh-G4/G4-pool buffers under archive writers start empty (imported from C11)"}
+	r.Rules = []string{"T1 single clock gate", "T1 gate fed from configured/entry mtime", "T1 entry mtime defaulting", "T1 host-name gate", "T1 no other nondeterminism source", "T2 order-insensitive map iteration", "T4 no non-constant compressor header field", "T5 no goroutine", "fixture (positive examples)", "T6-no-carried-state no package-level variable is written on a packaging path", "T7-template-zone changelog templates of nfpm's own use no local-zone date function", "fresh-G4/G4-pool buffers under archive writers start empty (imported from C11)", "T1-gate-shape the clock gate reads the clock only after every configured time was found zero", "T2 (extended) first-one-wins skips inside map ranges"}
 	r.Explanation = "Who-may-call and effect rules over go/ssa on all non-test module code: the wall clock is read only inside internal/modtime.Get and every call of it passes the configured package mtime or the entry's mtime first (so a configured mtime makes the clock fallback dead); prepared entries get the package mtime when they have none; os.Hostname is reachable only when no build host is configured (decided by abstract evaluation with the field fixed); no other nondeterminism source (environment, math/rand, pid, cwd, CPU count, user) is called from packaging code outside the enumerated gates; every map iteration is order-insensitive by an enumerated idiom or sorted; compressor header fields get no non-constant value; module code starts no goroutine. Each zero-count rule is run against a positive fixture on every run. These are necessary conditions for reproducible output; byte equality of two runs is not computed."
 	r.Explanation += " (T6) no function on a packaging path writes a package-level variable, directly or through sync.Map: nothing computed for one build can reach the next build in the same process."
 	r.Explanation += " (T7-template-zone) a constant template text handed to the changelog renderer contains none of sprig's local-zone date functions. (fresh-G4) imported from C11."
+	r.Explanation += " (T1-gate-shape) in the clock gate the time.Now call lies behind the loop over the configured times and its value is only returned. T2 also treats a lookup in a map the ranged body fills, whose found edge goes on with the next element, as order-dependent."
 	r.Assumptions = []string{
 		"pgzip, zstd, xz and compress/gzip output does not depend on GOMAXPROCS, scheduling or the clock when no header field is set (library property)",
 		"text/template visits map keys in sorted order (deb/ipk custom fields)",
@@ -157,6 +158,40 @@ func checkC07(c *Ctx, r *Report) {
 			if fk == "internal/modtime.Get" {
 				clockInGate++
 				r.Pass("T1-clock", construct, c.instrPos(h.In), "the clock gate itself")
+				// the gate reads the clock only as the last resort: the read
+				// lies behind the scan of the configured times (every path to
+				// it has seen all of them zero) and is returned as it is - a
+				// clock value obtained up front can end up compared with, or
+				// substituted for, a configured time
+				gate := h.In.Parent()
+				okShape := false
+				why := "the clock is read before the configured times have been examined"
+				if call, isCall := h.In.(*ssa.Call); isCall {
+					returned := false
+					if call.Referrers() != nil {
+						for _, ref := range *call.Referrers() {
+							if _, isRet := ref.(*ssa.Return); isRet {
+								returned = true
+							} else if _, isDbg := ref.(*ssa.DebugRef); !isDbg {
+								returned = false
+								why = "the clock value is used for something other than being returned"
+								break
+							}
+						}
+					}
+					// behind a loop over the arguments: some block with a back
+					// edge dominates the read, and the read is not inside it
+					behind := false
+					for _, b := range gate.Blocks {
+						for _, p := range b.Preds {
+							if b.Dominates(p) && b.Dominates(call.Block()) && !blockReaches(call.Block(), b) {
+								behind = true
+							}
+						}
+					}
+					okShape = returned && behind
+				}
+				r.Check(okShape, "T1-gate-shape", "the clock gate falls back to the clock only after every configured time was found zero", c.instrPos(h.In), why)
 			} else {
 				r.Fail("T1-clock", construct, c.instrPos(h.In), "the wall clock is read outside internal/modtime.Get: a timestamp or value in the package can depend on build time")
 			}
